@@ -325,3 +325,19 @@ Proof.
   split; [vm_compute; reflexivity|].
   split; [vm_compute; repeat constructor; simpl; intuition discriminate|]. vm_compute. reflexivity.
 Qed.
+
+(** 2' again, on the rebuilt table itself: a self-referencing table (up -> id ON DELETE CASCADE)
+    rebuilt while enforcement is effective loses the rows that reference other rows -- new_t's
+    foreign key names t, so DROP TABLE t cascades into new_t (seen on the real engine in the
+    rawtx runs of stage exhaust); with the pragma effective all rows survive. *)
+Definition w6_t : etable :=
+  mkEtable sT [col sId tyInt true; col sPid tyInt false] [mkRfk [sPid] sT [sId] ACascade]
+    [[(sId, v1); (sPid, VNull)]; [(sId, v2); (sPid, v1)]].
+Definition w6_cs : list schange :=
+  [ModifyTable (mkTdef sT [col sId tyInt true; col sPid tyInt false] [mkRfk [sPid] sT [sId] ACascade] []) [OtherChange 0]].
+Example C05_self_reference_needs_pragma :
+  (exists d' t', schema_apply conv0 genv0 TxNone (mkDb [w6_t] true false) w6_cs = Some (d', None) /\
+                 find_et sT (d_tables d') = Some t' /\ length (et_rows t') = 2) /\
+  (exists d' t', ApplyChanges conv0 genv0 (mkDb [w6_t] true true) w6_cs = Some (EOk d') /\
+                 find_et sT (d_tables d') = Some t' /\ length (et_rows t') = 1).
+Proof. split; eexists; eexists; vm_compute; repeat split. Qed.
